@@ -22,9 +22,10 @@
                                                        VLOG_NO_REF when there is none
      cleanup_vlog_and_index (src/lsm.rs)   vs_cleanup  nothing when the minimum is VLOG_NO_REF; else FIRST delete the
                                                        index entries whose pointer has `file_id < min`, THEN remove every
-                                                       file with `id < min && id != active` (operators generated).  Open
-                                                       readers, snapshots and iterators are not consulted
-                                                       (VLOG_CLEANUP_CHECKS_READERS = false)
+                                                       file with `id < min && id != active` (operators generated).  The
+                                                       function itself never looks at readers; its two run-time CALL SITES
+                                                       (flush, compaction) skip it while a snapshot is registered when
+                                                       VLOG_CLEANUP_CHECKS_READERS (vs_cleanup_rt, machine parameter chk)
      Compactor::merge_tables               vs_compact  the input tables are replaced by one output table (none when the
                                                        output is empty) whose entries are entries of the inputs — WHICH
                                                        ones is the compaction iterator's business (Lsm/CompactKey.v) —
@@ -141,9 +142,21 @@ Fixpoint list_max (l : list N) : option N :=
   | x :: r => match list_max r with None => Some x | Some m => Some (N.max x m) end
   end.
 
+Definition no_readers (st : vstate) : bool := match vs_readers st with [] => true | _ => false end.
+
 Section VlogMachine.
 Variable crc : list byte -> N.
 Variable cfg : vcfg.
+(* do the RUN-TIME call sites of the clean-up (after the manifest switch of a flush and of a compaction) test
+   `snapshot_tracker.first().is_none()`?  Generated: VlogParams.VLOG_CLEANUP_CHECKS_READERS (true in the repaired tree);
+   false is the rule before the repair of C11-N1, kept so that its refutation is a statement about the same functions *)
+Variable chk : bool.
+
+(* flush_immutable_to_sst_with_log_number / Compactor::update_manifest: with the test, the clean-up is skipped while any
+   reader is registered (every transaction that can read, for its whole life); a later flush / compaction or the next
+   start-up removes the files.  The start-up call site (vs_reopen) has no test: no reader exists yet *)
+Definition vs_cleanup_rt (st : vstate) : vstate :=
+  if chk && negb (no_readers st) then st else vs_cleanup st.
 
 (* VLog::append *)
 Definition vs_rotate_needed (st : vstate) : bool :=
@@ -209,7 +222,7 @@ Definition vs_flush (now tid : N) (mem : list (list byte * option (list byte))) 
     let st2 := if VLOG_FLUSH_SYNCS_ACTIVE then vs_sync_active st1 else st1 in
     let t := {| tb_id := tid; tb_entries := es; tb_oldest := table_oldest es |} in
     let st3 := set_index (set_tables st2 (vs_tables st2 ++ [t])) (if cf_index cfg then fold_left index_insert es (vs_index st2) else vs_index st2) in
-    Some (vs_cleanup st3)
+    Some (vs_cleanup_rt st3)
   end.
 
 (* compaction: `out` names the kept entries by (key, stored value); each must be an entry of an input table *)
@@ -235,7 +248,7 @@ Definition vs_compact (ins : list N) (tid : N) (out : list (list byte * list byt
               | [] => rest
               | _ => rest ++ [{| tb_id := tid; tb_entries := es; tb_oldest := table_oldest es |}]
               end in
-    Some (vs_cleanup (set_tables st ts))
+    Some (vs_cleanup_rt (set_tables st ts))
   end.
 
 (* clean close + open *)
@@ -279,8 +292,9 @@ Inductive vop :=
 | VFlush (now tid : N) (mem : list (list byte * option (list byte)))
 | VCompact (ins : list N) (tid : N) (out : list (list byte * list byte))
 | VReopen (keep_cache : bool)
-| VReaderOpen (rid : N)                 (* a reader takes the current table set (a clone of `levels`) *)
-| VReaderClose (rid : N)
+| VReaderOpen (rid : N)                 (* a reader (a transaction that can read: registered snapshot) takes the current table
+                                          set (a clone of `levels`); again with the same rid: one more table set, e.g. a new cursor *)
+| VReaderClose (rid : N)                (* the transaction ends: all its table sets go *)
 | VReadLive (tid : N) (i : nat)         (* a read through the current tables resolves entry i of table tid *)
 | VReadIndex (i : nat)                  (* a history read through the version index *)
 | VReadReader (rid tid : N) (i : nat).  (* an open reader resolves an entry of ITS table set *)
